@@ -418,9 +418,9 @@ fn reset_event(sys: &Sys, execs: &[String], min0: u32) -> Value {
            "optab": Value::Object(optab), "deny": ["n"], "now": NOW0, "res": "ok", "err": 0, "obs": sys.obs()})
 }
 
-fn blank(kind: &str, x0: &[String], dt: i64) -> Value {
+fn blank(kind: &str, x0: &[String], m0: u32, dt: i64) -> Value {
     json!({"op": kind, "id": "none", "call": "none", "who": "none", "auth": false, "delay": 0, "entry": false,
-           "metas": [], "sub": "none", "ctxs": [], "xauth": [], "x0": x0, "dt": dt})
+           "metas": [], "sub": "none", "ctxs": [], "xauth": [], "x0": x0, "m0": m0, "dt": dt})
 }
 
 fn main() {
@@ -433,7 +433,10 @@ fn main() {
                     Some(a) => a.iter().map(|x| x.as_str().unwrap().to_string()).collect(),
                     None => b.ops.first().map(|o| strs(o, "x0")).unwrap_or_default(),
                 };
-                let min0 = b.cfg.get("min0").and_then(|v| v.as_u64()).unwrap_or(1) as u32;
+                let min0 = match b.cfg.get("min0").and_then(|v| v.as_u64()) {
+                    Some(m) => m,
+                    None => b.ops.first().and_then(|o| o.get("m0")).and_then(|v| v.as_u64()).unwrap_or(1),
+                } as u32;
                 let mut sys = Sys::new(&execs, min0);
                 t.reset(reset_event(&sys, &execs, min0));
                 for op in &b.ops {
@@ -468,7 +471,10 @@ fn main() {
                     let executors = holders("executor");
                     let dt = *pick(&mut r, &[0i64, 0, 1, 1, 2, 3]);
                     let kind = *pick(&mut r, &["schedule", "schedule", "schedule", "schedule", "cancel", "execute", "admin", "admin", "admin", "admin", "admin", "chk"]);
-                    let mut op = blank(kind, &execs, dt);
+                    // an admin attempt is most telling when some operation is pending
+                    let pend_any = names.iter().any(|x| *x != "E" && (state(x) == "Ready" || state(x) == "Waiting"));
+                    let kind = if (kind == "admin" || kind == "chk") && !pend_any && r.gen_bool(0.7) { "schedule" } else { kind };
+                    let mut op = blank(kind, &execs, min0, dt);
                     match kind {
                         "schedule" => {
                             let unset = by_state("Unset");
